@@ -16,11 +16,12 @@ Mirrors `_reset`, `_step`, `_move_to_next_machine`, `_update_step_state` stateme
 No Mathlib.
 -/
 import Rl4co.Core.Basic
+import Rl4co.Generated.Params
 
 namespace Rl4co.Ffsp
 
-/-- `fill_value=-999999` of `schedule` in `_reset` -/
-def UNSET : Int := -999999
+/-- `fill_value=-999999` of `schedule` in `_reset` (extracted from the source on every run) -/
+def UNSET : Int := Params.ffspSentinel
 
 structure Inst where
   S    : Nat               -- `num_stage`
@@ -28,6 +29,7 @@ structure Inst where
   J    : Nat               -- `num_job`
   dur  : Nat → Nat → Nat   -- `run_time[j][m]`, m global machine index
   perm : Nat → Nat         -- `permutations[pomo_idx]` (entries 0..M-1)
+  flat : Bool              -- `flatten_stages` (only affects the policy-facing `stage_machine_idx`)
 
 /-- `num_machine_total` -/
 def MT (i : Inst) : Nat := i.M * i.S
@@ -38,6 +40,11 @@ def stageOf (i : Inst) (sub : Nat) : Nat := sub / i.M
 /-- `IndexTables.get_machine_index`: `(permutations.repeat(1, S) + start_sub_ids)[pomo_idx, sub]` -/
 def machineOf (i : Inst) (sub : Nat) : Nat := i.perm (sub % i.M) + i.M * (sub / i.M)
 
+/-- `IndexTables.get_stage_machine_index`: `stage_machine_table` is `machine_table` when
+`flatten_stages`, else the bare permutation (no stage offset) -/
+def stageMachineOf (i : Inst) (sub : Nat) : Nat :=
+  if i.flat then machineOf i sub else i.perm (sub % i.M)
+
 /-- `job_duration[j][m]`: rows `0..J-1` are `run_time`, row `J` (dummy / wait) is 0 -/
 def jobDur (i : Inst) (j m : Nat) : Nat := if j < i.J then i.dur j m else 0
 
@@ -45,6 +52,8 @@ structure State where
   time   : Nat                -- `time_idx`
   sub    : Nat                -- `sub_time_idx`
   midx   : Nat                -- `machine_idx`
+  stage  : Nat                -- `stage_idx` (policy input; refreshed by `_update_step_state`)
+  smidx  : Nat                -- `stage_machine_idx` (policy input; refreshed by `_update_step_state`)
   sched  : Nat → Nat → Int    -- `schedule[m][j]`
   mwait  : Nat → Nat          -- `machine_wait_step[m]`
   jloc   : Nat → Nat          -- `job_location[j]` (J+1 entries)
@@ -56,23 +65,32 @@ structure State where
 /-- `_reset` -/
 def reset (i : Inst) : State :=
   { time := 0, sub := 0, midx := machineOf i 0
+    stage := stageOf i 0, smidx := stageMachineOf i 0
     sched := fun _ _ => UNSET
     mwait := fun _ => 0, jloc := fun _ => 0, jwait := fun _ => 0
     done := false
-    mask := fun a => decide (a < i.J)
+    mask := fun a => decide (a < i.J) || (a == i.J && !Params.ffspInitWaitMasked)
     reward := none }
 
 /-- `(job_location[:, :J] == num_stage).all(-1)` -/
 def allAtEnd (i : Inst) (jloc : Nat → Nat) : Bool := (List.range i.J).all (fun j => jloc j == i.S)
 
+/-- the machine index `_step` books the operation on: `td["machine_idx"]` (which key the source reads is
+extracted on every run; `td["stage_machine_idx"]` would differ when `flatten_stages = False`) -/
+def bookMachine (s : State) : Nat :=
+  match Params.ffspStepUsesMachineIdx with
+  | true => s.midx
+  | false => s.smidx
+
 /-- first half of `_step`: bookkeeping of the chosen action `a` (a job or the wait action `J`) -/
 def apply (i : Inst) (s : State) (a : Nat) : State :=
-  let d := jobDur i a s.midx
+  let mi := bookMachine s
+  let d := jobDur i a mi
   let jloc' := upd s.jloc a (s.jloc a + 1)
   { s with
     jloc := jloc'
-    sched := upd s.sched s.midx (upd (s.sched s.midx) a (s.time : Int))
-    mwait := upd s.mwait s.midx d
+    sched := upd s.sched mi (upd (s.sched mi) a (s.time : Int))
+    mwait := upd s.mwait mi d
     jwait := upd s.jwait a d
     done := allAtEnd i jloc' }
 
@@ -122,7 +140,10 @@ def updateMask (i : Inst) (s : State) : State :=
   let inPrev := (List.range i.J).any (fun j => decide (s.jloc j < st))
   let waiting := (List.range i.J).any (fun j => s.jloc j == st && decide (s.jwait j > 0))
   let waitAllowed := inPrev || waiting || s.done
-  { s with mask := fun a =>
+  { s with
+    stage := st
+    smidx := stageMachineOf i s.sub
+    mask := fun a =>
       if a < i.J then (s.jloc a == st && s.jwait a == 0)
       else if a = i.J then waitAllowed else false }
 
@@ -133,10 +154,17 @@ def maxI : List Int → Int
   | [x] => x
   | x :: y :: xs => max x (maxI (y :: xs))
 
+/-- number of job columns entering the makespan: `end_schedule[:, :, : self.num_job]` excludes the
+dummy column (the slice bound is extracted from the source) -/
+def rewardCols (i : Inst) : Nat :=
+  match Params.ffspRewardExcludesDummy with
+  | true => i.J
+  | false => i.J + 1
+
 /-- `end_schedule[:, :, :J].max(-1).max(-1)` -/
 def endMax (i : Inst) (s : State) : Int :=
   maxI ((List.range (MT i)).map (fun m =>
-    maxI ((List.range i.J).map (fun j => s.sched m j + (i.dur j m : Int)))))
+    maxI ((List.range (rewardCols i)).map (fun j => s.sched m j + (jobDur i j m : Int)))))
 
 /-- value written to `td["reward"]` -/
 def rewardVal (i : Inst) (s : State) : Int := - endMax i s
@@ -178,8 +206,39 @@ def batchStep (rows : List (Inst × State)) (acts : List Nat) : List (Inst × St
   let g := rows1.all (fun r => r.2.done)
   rows1.map (fun r => (r.1, finish r.1 r.2 g))
 
-/-- `IndexTables.get_machine_index`'s `pomo_idx = idx // self.bs` -/
-def pomoIdx (bs row : Nat) : Nat := row / bs
+/-- `IndexTables.get_machine_index`'s `pomo_idx = idx // self.bs` (operator extracted from the source) -/
+def pomoIdx (bs row : Nat) : Nat :=
+  match Params.ffspPomoFloorDiv with
+  | true => row / bs
+  | false => row % bs
+
+/-! ### `IndexTables`: the machine permutations and the row → permutation map -/
+
+/-- `itertools.permutations(l)` for a list of length `n` (lexicographic in positions) -/
+def permsAux : Nat → List Nat → List (List Nat)
+  | 0, _ => [[]]
+  | n + 1, l => l.flatMap (fun x => (permsAux n (l.erase x)).map (x :: ·))
+
+/-- `list(itertools.permutations(range(M)))` -/
+def permsOf (M : Nat) : List (List Nat) := permsAux M (List.range M)
+
+/-- `IndexTables` of an env with `M` machines per stage after `set_bs(bs)` -/
+structure Tables where
+  M  : Nat
+  bs : Nat
+
+/-- the permutation row `row` of a batch uses: `permutations[pomo_idx]` -/
+def Tables.perm (tb : Tables) (row : Nat) : Nat → Nat :=
+  fun p => ((permsOf tb.M).getD (pomoIdx tb.bs row) []).getD p 0
+
+/-- the instance a batch row is stepped as: shape, durations and `flatten_stages` of the env, machine
+permutation from the tables -/
+def rowInst (tb : Tables) (S J : Nat) (flat : Bool) (dur : Nat → Nat → Nat) (row : Nat) : Inst :=
+  { S := S, M := tb.M, J := J, dur := dur, perm := tb.perm row, flat := flat }
+
+/-! ### `FFSPGenerator._generate`: `run_time = randint(low=min_time, high=max_time)` as a function of raw
+draws `u j m ∈ [0, max_time - min_time)` -/
+def genDur (minT : Nat) (u : Nat → Nat → Nat) : Nat → Nat → Nat := fun j m => minT + u j m
 
 /-! Step bound of the family (used by `Props/C02/Ffsp.lean`, printed by the driver). -/
 
@@ -190,8 +249,8 @@ def sumN : Nat → (Nat → Nat) → Nat
 /-- longest duration of job `j` over the machines of stage `k` -/
 def maxDur (i : Inst) (j k : Nat) : Nat := maxL ((List.range i.M).map (fun p => i.dur j (k * i.M + p)))
 
-/-- `D`: total work at the longest durations -/
-def totalWork (i : Inst) : Nat := sumN i.J (fun j => sumN i.S (fun k => maxDur i j k))
+/-- `D`: total work at the longest durations (an operation of duration 0 counts as 1) -/
+def totalWork (i : Inst) : Nat := sumN i.J (fun j => sumN i.S (fun k => max 1 (maxDur i j k)))
 
 /-- step bound: `(D + 1) · M·S` -/
 def stepBound (i : Inst) : Nat := (totalWork i + 1) * MT i
